@@ -299,6 +299,11 @@ func newSess(c cfg) (*sess, error) {
 			})
 		}
 	}
+	// wait until every poller goroutine sits in epoll_wait: readWriteLoop resets p.shutdown when it starts, so a
+	// Stop that overtakes the start of a poller goroutine would never terminate it
+	for i := 0; i < c.np; i++ {
+		vsys.InjectTimeout(g.VerifEpfd(i), nil, 5*time.Second)
+	}
 	s.fd, s.v = vsys.NewVFD()
 	s.epfd = g.VerifEpfd(s.fd % c.np)
 	var nc *nbio.Conn
